@@ -332,6 +332,13 @@ fn metric_name(i: usize) -> String {
     if i % 11 == 5 {
         return String::new();
     }
+    // strings with line feeds are legal arguments of MetricSink::emit too: one emit, one hand-over
+    match i % 13 {
+        7 => return format!("m{}.a:1|c\nm{}.b:2|c", i, i),
+        9 => return format!("m{}.t:1|c\n", i),
+        11 if i % 3 == 0 => return "\n".to_string(),
+        _ => {}
+    }
     format!("m{}.{}:1|c", i, "x".repeat(i % 7))
 }
 
@@ -613,7 +620,34 @@ pub fn run_case_focus(case: &QueueCase, ctx: &Ctx, focus: Option<QRule>) -> Run 
                     if room_known == Some(false) {
                         was_full = true;
                     }
-                    match actor.call(Cmd::Emit(h, m.clone()), w) {
+                    // if the wrapped sink is (wrongly) run inside this emit it answers with an error: a
+                    // configured handler must then still not run on the caller's thread (C16)
+                    let handler_events_before = gate.lock().handled;
+                    if case.handler {
+                        gate.lock().caller_outcome = Some(StepOut::Err(7));
+                    }
+                    let emit_reply = actor.call(Cmd::Emit(h, m.clone()), w);
+                    gate.lock().caller_outcome = None;
+                    {
+                        let g = gate.lock();
+                        if g.handled > handler_events_before {
+                            let on_caller = g.log.iter().rev().find_map(|e| match e {
+                                Ev::Handler { thread, .. } => Some(*thread == actor.thread),
+                                _ => None,
+                            });
+                            if on_caller == Some(true) {
+                                drop(g);
+                                find!(
+                                    [QRule::Handler, QRule::Isolation],
+                                    oi,
+                                    "the error handler ran on the emitting thread during emit('{}') (the wrapped sink was run inline and failed)",
+                                    m
+                                );
+                                fatal = true;
+                            }
+                        }
+                    }
+                    match emit_reply {
                         Ok(Reply::Emit(Ok(n))) => {
                             if n != m.len() {
                                 find!([QRule::Isolation], oi, "emit of a {}-byte metric returned Ok({})", m.len(), n);
